@@ -46,7 +46,9 @@ class _Variant(CallableDef):
         object.__setattr__(self, "id", DefId.fresh())
         object.__setattr__(self, "name", f"v{idx}")
         object.__setattr__(self, "defined_at", None)
-        object.__setattr__(self, "ty", FunctionType([FuncInput(INT, InputFlags.NoFlags)] * idx, NoneType()))
+        # every stand-in has the signature the call has (no arguments): whether a variant applies is decided by its own
+        # check_call / synthesize_call alone
+        object.__setattr__(self, "ty", FunctionType([], NoneType()))
         object.__setattr__(self, "idx", idx)
         object.__setattr__(self, "ok", ok)
         object.__setattr__(self, "log", log)
@@ -112,7 +114,8 @@ VARIANTS = {
     "v_gen": ("x: T", "int"), "v_two": ("x: int, y: int", "int"), "v_two_f": ("x: float, y: float", "int"), "v_none": ("", "int"),
     "v_tup": ("x: tuple[int, int]", "int"), "v_ret_f": ("x: int", "float"), "v_ret_b": ("x: int", "bool"),
 }
-SETS = [("v_int", "v_float"), ("v_float", "v_int"), ("v_gen", "v_int"), ("v_int", "v_gen"), ("v_two", "v_int", "v_float"), ("v_nat", "v_int", "v_float"),
+NESTED = {"ovA": ("v_two", "v_tup"), "ovB": ("v_bool", "v_nat")}      # overload sets used as variants of other sets
+SETS = [("ovA", "v_float"), ("v_float", "ovA", "v_int"), ("ovB", "ovA", "v_gen"), ("v_int", "v_float"), ("v_float", "v_int"), ("v_gen", "v_int"), ("v_int", "v_gen"), ("v_two", "v_int", "v_float"), ("v_nat", "v_int", "v_float"),
         ("v_bool", "v_float", "v_gen"), ("v_none", "v_two_f", "v_two"), ("v_ret_b", "v_ret_f", "v_int"), ("v_tup", "v_gen"), ("v_float", "v_nat", "v_tup", "v_none")]
 ARGS = ["1", "1.5", "True", "n", "i", "(1, 2)", "1, 2", "i, 1.5", "", "-1"]
 POSITIONS = ["synth", "check_int", "check_float", "check_bool"]
@@ -131,6 +134,8 @@ def _module_text():
     out = ["from guppylang import guppy\nfrom guppylang.std.builtins import nat\nT = guppy.type_var('T')\n\n"]
     for name, (params, ret) in VARIANTS.items():
         out.append(f"@guppy.declare\ndef {name}({params}) -> {ret}: ...\n\n")
+    for nm, vs in NESTED.items():
+        out.append(f"@guppy.overload({', '.join(vs)})\ndef {nm}(): ...\n\n")
     for si, s in enumerate(SETS):
         out.append(f"@guppy.overload({', '.join(s)})\ndef ov{si}(): ...\n\n")
     names = []
@@ -193,7 +198,10 @@ def h_programs(case: int) -> bool:
         if not ok:
             LAST_DETAIL = f"{desc}: variant {want} accepts a direct call, but the overloaded call is rejected ({why})"
             return False
-        ids = {getattr(M, v).id: v for v in SETS[s]}
+        ids = {}
+        for v in SETS[s]:
+            for leaf in NESTED.get(v, (v,)):
+                ids.setdefault(getattr(M, leaf).id, v)      # a nested set counts as the variant that contains the leaf
         got = _chosen(prog, ids)
         if got != want:
             LAST_DETAIL = f"{desc}: first applicable variant is {want}, the checked program calls {got}"
